@@ -2631,6 +2631,13 @@ func (pid *PID) tryPassivation(reason string) bool {
 	pid.stopLocker.Lock()
 	defer pid.stopLocker.Unlock()
 
+	// a Shutdown that held the lock while we waited has already stopped the
+	// actor (PostStop ran): stopping it again would run PostStop a second time.
+	if !pid.isStateSet(runningState) {
+		pid.logger.Debugf("passivation decision aborted for %s: actor stopped while waiting for the stop lock", pid.Name())
+		return false
+	}
+
 	if pid.compareAndSwapState(passivationSkipNextState, true, false) {
 		pid.logger.Debugf("passivation decision aborted for %s due to reinstate observed during critical section", pid.Name())
 		return false
